@@ -213,6 +213,9 @@ class Program(object):
                     else:
                         c.ext_bases.append(ast.unparse(b))
 
+    def classes_named(self, name):
+        return [c for m in self.modules.values() for c in m.classes.values() if c.name == name]
+
     def resolve_name_in_module(self, m, node, _depth=0):
         """resolve a Name / dotted Attribute appearing in module m to ClassInfo / FuncInfo /
         ModuleInfo / ('ext', dotted) / None"""
